@@ -2,6 +2,7 @@
 import copy, glob, itertools, json, os, re, subprocess, time
 import vlib
 from vlib import vh_batch
+import c12shapes
 
 MANIFEST = dict(
     text="PARTIAL for the proof technique. Proved over Model/Text: error_compose_no_panic (ErrorMessages::composed reaches neither its own "
@@ -761,6 +762,131 @@ def mutate_json(rng, tree):
 
 
 # ---------------------------------------------------------------------------------------------
+# nesting shapes: time as a function of nesting depth, judged PER SHAPE against the recorded baseline of the unchanged tree
+# ---------------------------------------------------------------------------------------------
+SHAPE_CORE = ["paren", "paren-pipe-first", "paren-pipe-last", "call-arg-first", "call-arg-last", "tuple-first", "array-last", "case-value",
+              "lambda-applied", "binary-left-paren", "binary-right-paren", "unary-neg-paren", "range-end-paren", "fstring-in-paren"]
+SHAPE_OPS2 = ("fmt", "rq", "compile", "staged")
+
+
+def shape_baseline(ctx):
+    """"<shape>/<variant>/<entry point>" -> (finding id, first depth above THR on the recorded tree), from the field `nesting_shapes`
+    of the listed findings `superpolynomial-time:<stage>`"""
+    base = {}
+    for fid, f in ctx.known.items():
+        if fid.startswith("superpolynomial-time:"):
+            for k, d in (f.get("nesting_shapes") or {}).items():
+                base[k] = (fid, d)
+    return base
+
+
+def shape_verdict(ds, ts, st):
+    """(first depth that blows up, its CPU seconds, CPU ratio per +2 levels) for a series that ended `slow` / `killed` with growth
+    (x3 over the last two steps = +4 levels: no polynomial of degree < 6 does that at depth >= 20), else None"""
+    if not st or st[0] not in ("slow", "killed"):
+        return None
+    i, big = st[1], float(st[2])
+    prev = ts[:i]
+    ref = max(prev[i - 2] if i >= 2 else (min(prev) if prev else 0.0), 0.01)
+    if big / ref < 3.0:
+        return None
+    return ds[i], big, (big / ref) ** (1.0 / (2 if i >= 2 else 1))
+
+
+def nesting_shapes(ctx, ex):
+    import concurrent.futures
+    thorough = ctx.tier == "thorough"
+    t0 = time.time()
+    maxdepth = 40 if thorough else 24
+    ds = c12shapes.depths(maxdepth)
+    base = shape_baseline(ctx)
+    cat = [(sid, "catalogue") for sid, _ in c12shapes.catalogue()]
+    # composites: levels alternate between two (three) shapes, closed variants; systematic pairs first, seeded ones second
+    pairs = [(a, b) for a in (c12shapes.COMPOSABLE if thorough else SHAPE_CORE) for b in (c12shapes.COMPOSABLE if thorough else SHAPE_CORE) if a != b]
+    mixes = [(f"mix({a}+{b})/c", "pair") for a, b in pairs]
+    for _ in range(400 if thorough else 60):
+        names = [ctx.rng.choice(c12shapes.COMPOSABLE) for _k in range(ctx.rng.choice([2, 3, 3]))]
+        mixes.append((f"mix({'+'.join(names)})/{ctx.rng.choice(['c', 'c', 'ml'])}", "random"))
+    res = {}
+
+    def one(job):
+        sid, op = job
+        return job, c12shapes.run_series(vlib.VH, vlib.env, op, [c12shapes.gen(sid, d) for d in ds])
+    with concurrent.futures.ThreadPoolExecutor(vlib.NCPU) as pool:
+        # phase 1: lexer and parser on everything; phase 2: the later entry points on what the parser comes back on
+        for job, r in pool.map(one, [(sid, op) for sid, _ in cat + mixes for op in ("lex", "pl")]):
+            res[job] = r
+        alive = lambda sid: not any((res[(sid, o)][1] or ("",))[0] in ("slow", "killed", "died") for o in ("lex", "pl"))
+        jobs2 = [(sid, op) for sid, _ in cat if alive(sid) for op in SHAPE_OPS2]
+        jobs2 += [(sid, op) for sid, _ in mixes if alive(sid) for op in ("rq", "compile")]    # (the formatter blows up on most closed shapes: catalogue only)
+        for job, r in pool.map(one, jobs2):
+            res[job] = r
+    blown, hits_base, not_reached = {}, 0, []
+    for (sid, op), (ts, st) in sorted(res.items()):
+        for d_ in ds[:len(ts)]:
+            ctx.case((op, "nesting-shape", sid, d_)); ex.n_req += 1
+        if not st:
+            continue
+        key = "src" if op in ("lex", "tokens") else "prql"
+        req = {"op": op, key: c12shapes.gen(sid, ds[st[1]]), "_gen": f"nesting-shape {sid} depth={ds[st[1]]}"}
+        if st[0] == "panic":
+            ex.outcomes["panic"] += 1
+            a = st[2]
+            ex.record_failure(ex.pclass(a, op), f"{op} panics on nesting shape {sid} at depth {ds[st[1]]}: {str(a.get('panic'))[:160]} (at {a.get('at')}, in {a.get('fn')})", req, a)
+            continue
+        if st[0] == "died":
+            a, _ = run_single(req, ex.single_timeout)
+            if "crash" in a and a.get("kind") != "timeout":
+                ex.outcomes["crash"] += 1
+                stage, a2 = locate_stage(req, ex.single_timeout)
+                ex.record_failure(f"{a['kind']}:{stage or STAGE_OF[op]}", f"{op} on nesting shape {sid} at depth {ds[st[1]]}: process {a['kind']} ({a.get('stderr', '')[:120]})", req, a)
+            elif "panic" in a:
+                ex.outcomes["panic"] += 1
+                ex.record_failure(ex.pclass(a, op), f"{op} panics on nesting shape {sid}: {str(a.get('panic'))[:160]}", req, a)
+            else:
+                ctx.count("nesting-shapes: process death not reproduced alone")
+            continue
+        v = shape_verdict(ds, ts, st)
+        if v is None:
+            ctx.count("nesting-shapes: above the threshold without growth (not judged)")
+            continue
+        d1, big, ratio = v
+        stage = STAGE_OF[op]
+        if op in ("compile", "staged"):
+            r2 = res.get((sid, "rq"))
+            stage = "resolver" if r2 and shape_verdict(ds, *r2) else "sql"
+        pair = f"{sid}/{op}"
+        blown[pair] = d1
+        cid = f"superpolynomial-time:{stage}"
+        b = base.get(pair)
+        if b and b[0] == cid and d1 >= b[1] - c12shapes.SLACK:
+            hits_base += 1
+            note = f"recorded on the unchanged tree (there: depth {b[1]})"
+        elif b and b[0] == cid:
+            cid += f":{sid}:earlier"
+            note = f"the unchanged tree only gets there at depth {b[1]}"
+        else:
+            cid += f":{sid}"
+            note = "this (shape, entry point) does not blow up on the recorded unchanged tree"
+        tail = ", ".join(f"{t:.2f}s@{d_}" for d_, t in list(zip(ds, ts))[max(0, st[1] - 3):st[1]])
+        ex.outcomes["crash"] += 1
+        ex.record_failure(cid, f"{op} on nesting shape {sid}: CPU per request {tail or '-'}, then {'killed after' if st[0] == 'killed' else ''} {big:.2f}s at depth {d1} "
+                               f"(x{ratio:.1f} per +2 levels, {len(req[key])} bytes); {note}", req, {"crash": "slow", "t_big": big, "depth": d1})
+    for pair, (fid, d_) in base.items():
+        sid, op = pair.rsplit("/", 1)
+        if pair not in blown and d_ <= maxdepth - c12shapes.SLACK and (sid, op) in res:
+            not_reached.append(pair)
+    ctx.obligation("nesting shapes: the catalogue covers every bracket-like construct (>= 80 shapes) in closed, unclosed, over-closed and multi-line variants",
+                   len(c12shapes.PP) + len(c12shapes.CUSTOM) >= 80 and len(cat) >= 350, f"{len(c12shapes.PP) + len(c12shapes.CUSTOM)} shapes, {len(cat)} distinct shape variants")
+    ctx.coverage_extra["nesting_shapes"] = {
+        "shapes": len(c12shapes.PP) + len(c12shapes.CUSTOM), "shape_variants": len(cat), "composites_systematic": len(pairs), "composites_random": len(mixes) - len(pairs),
+        "depths": f"2..{maxdepth} step 2", "threshold_cpu_s": c12shapes.THR, "kill_cpu_s": c12shapes.KILL, "series": len(res),
+        "entry_points": ["lex", "pl"] + list(SHAPE_OPS2), "blown_up (pair -> first depth)": blown, "of_them_recorded_on_the_unchanged_tree": hits_base,
+        "recorded_but_fine_this_run": not_reached, "seconds": round(time.time() - t0, 1)}
+    ctx.sample({"family": "nesting-shape", "shape": "paren-pipe-first/c", "depth": 4, "input": c12shapes.gen("paren-pipe-first/c", 4)})
+
+
+# ---------------------------------------------------------------------------------------------
 def run(ctx):
     br = vlib.standard_proof_obligations(ctx, ["PrqlModel.Props.C12"], [],
         required_theorems=["error_compose_no_panic", "compose_panic_sites", "lexer_errors_never_panic_compose",
@@ -861,6 +987,9 @@ def run(ctx):
     ex.run(reqs, "ii-mutants", timeout=(900 if thorough else 150), nontrivial=lambda r, a: not ("err" in a))
     ctx.sample({"family": "token-mutant", "of": progs[0][:80], "mutant": mutate_source(vlib.random.Random(1), progs[0], tokens.get(progs[0], []))[:120]})
     ctx.coverage_extra["mutants"] = {"count": n_mut, "corpus_programs": len(progs), "seconds": round(time.time() - t0, 1)}
+
+    # ---- nesting shapes x entry points: depth series judged per shape against the recorded baseline ---------------
+    nesting_shapes(ctx, ex)
 
     # ---- stress families on doubling sizes (each request in its own process, hard timeout) ------------
     t0 = time.time()
